@@ -265,17 +265,17 @@ def related(t1, t2, step, vocab):
     return None
 
 
-# (function, first lvalue, enclosing case) -> reason: anisotropic stanzas inside otherwise isotropic functions
+# (function, component name of the first lvalue, enclosing case) -> reason: anisotropic stanzas inside otherwise isotropic functions
+# (keyed by the member written, not by the name of the variable that holds it)
 ANISOTROPIC_GROUPS = {
-    ('reb_boundary_get_ghostbox', 'gb.x', 'REB_BOUNDARY_SHEAR'): 'shear-periodic images are shifted in y by the shear offset (R15.2 decides this stanza)',
-    ('reb_boundary_get_ghostbox', 'gb.vx', 'REB_BOUNDARY_SHEAR'): 'shear velocity offset applies to vy only (R15.2 decides this stanza)',
-    ('reb_collision_resolve_hardsphere', 'particles[c.p2].vx', None): 'rotation back from the frame aligned with the line of centres (two planar rotations, anisotropic by construction)',
-    ('reb_collision_resolve_hardsphere', 'particles[c.p1].vx', None): 'rotation back from the frame aligned with the line of centres',
-    ('reb_particle_from_orbit_err', 'p.x', None): 'Euler rotation from the orbital plane: the reference plane is special',
-    ('reb_particle_from_orbit_err', 'p.vx', None): 'Euler rotation from the orbital plane: the reference plane is special',
-    ('reb_particle_from_pal', 'np.x', None): 'Pal coordinates: the reference plane is special',
-    ('reb_particle_from_pal', 'np.vx', None): 'Pal coordinates: the reference plane is special',
-    ('reb_tools_spherical_to_xyz', 'xyz.x', None): 'spherical coordinates',
+    ('reb_boundary_get_ghostbox', 'x', 'REB_BOUNDARY_SHEAR'): 'shear-periodic images are shifted in y by the shear offset (R15.2 decides this stanza)',
+    ('reb_boundary_get_ghostbox', 'vx', 'REB_BOUNDARY_SHEAR'): 'shear velocity offset applies to vy only (R15.2 decides this stanza)',
+    ('reb_collision_resolve_hardsphere', 'vx', None): 'rotation back from the frame aligned with the line of centres (two planar rotations, anisotropic by construction)',
+    ('reb_particle_from_orbit_err', 'x', None): 'Euler rotation from the orbital plane: the reference plane is special',
+    ('reb_particle_from_orbit_err', 'vx', None): 'Euler rotation from the orbital plane: the reference plane is special',
+    ('reb_particle_from_pal', 'x', None): 'Pal coordinates: the reference plane is special',
+    ('reb_particle_from_pal', 'vx', None): 'Pal coordinates: the reference plane is special',
+    ('reb_tools_spherical_to_xyz', 'x', None): 'spherical coordinates',
 }
 
 
@@ -325,7 +325,7 @@ def check_function(tu, fn, report, stats, rule='X1'):
             if pos is None:
                 i += 1
                 continue
-            if (name, render(tri[0][1]), case) in ANISOTROPIC_GROUPS:
+            if (name, lvs[0][1], case) in ANISOTROPIC_GROUPS:
                 stats['excluded'] = stats.get('excluded', 0) + 1
                 i += 3
                 continue
